@@ -163,6 +163,13 @@ key_fn_by_scheme = {
 pool_classes_by_scheme = {"http": HTTPConnectionPool, "https": HTTPSConnectionPool}
 
 
+def _host_header_value(url: Url) -> str | None:
+    """``host[:port]`` as in the Host header of a direct request: without the default port."""
+    if url.port == port_by_scheme.get(url.scheme or ""):
+        url = url._replace(port=None)
+    return url.netloc
+
+
 class PoolManager(RequestMethods):
     """
     Allows for arbitrary requests while transparently keeping track of
@@ -520,12 +527,13 @@ class PoolManager(RequestMethods):
         # A Host header that names the host we are being redirected away from
         # (a forwarding ProxyManager sets one for every request) must not be
         # carried over to a different host.
-        new_netloc = parse_url(redirect_location).netloc
-        if u.netloc and new_netloc != u.netloc:
+        new_netloc = _host_header_value(parse_url(redirect_location))
+        old_netloc = _host_header_value(u)
+        if old_netloc and new_netloc != old_netloc:
             stale = [
                 header
                 for header in kw["headers"]
-                if header.lower() == "host" and kw["headers"][header] == u.netloc
+                if header.lower() == "host" and kw["headers"][header] == old_netloc
             ]
             if stale:
                 new_headers = kw["headers"].copy()
@@ -660,7 +668,7 @@ class ProxyManager(PoolManager):
         """
         headers_ = {"Accept": "*/*"}
 
-        netloc = parse_url(url).netloc
+        netloc = _host_header_value(parse_url(url))
         if netloc:
             headers_["Host"] = netloc
 
